@@ -62,7 +62,11 @@ trait Q: Clone {
     fn roundtrip(&self) -> Result<Self, String>;
     fn same(&self, o: &Self) -> bool;
     fn convert(self) -> Self;
-    fn capacity_ops(&mut self, n: usize);
+    fn capacity_ops(&mut self, n: usize) -> Result<(), String>;
+    fn leak_iter_mut(&mut self, writes: usize);
+    fn pop_hi_if_panic(&mut self);
+    /// run an operation whose user callback panics at its k-th call (the panic is caught by the caller)
+    fn faulty(&mut self, which: u64, k: usize, id: u16);
 }
 
 macro_rules! common { ($T:ident) => {
@@ -89,7 +93,27 @@ macro_rules! common { ($T:ident) => {
     fn from_it(v: Vec<(It, i32)>, lo: usize, hi: Option<usize>) -> Self { Hinted { it: v.into_iter(), lo, hi }.collect() }
     fn roundtrip(&self) -> Result<Self, String> { let s = serde_json::to_string(self).map_err(|e| e.to_string())?; serde_json::from_str(&s).map_err(|e| e.to_string()) }
     fn same(&self, o: &Self) -> bool { self == o }
-    fn capacity_ops(&mut self, n: usize) { self.reserve(n); let c = self.capacity(); assert!(c >= self.len() + n); self.shrink_to_fit(); self.try_reserve(n).unwrap(); self.reserve_exact(1); }
+    fn leak_iter_mut(&mut self, writes: usize) { let mut it = self.iter_mut(); for _ in 0..writes { if let Some((_, p)) = it.next() { *p -= 5; } } std::mem::forget(it); }
+    fn faulty(&mut self, which: u64, k: usize, id: u16) {
+        let mut n = 0usize;
+        match which {
+            0 => { self.change_priority_by(&It { id, tag: 0 }, |p| { *p -= 1000; panic!("user closure") }); }
+            1 => { $T::retain_mut(self, |_, p| { n += 1; *p -= 7; if n > k { panic!("user predicate") } n % 2 == 0 }); }
+            2 => { $T::retain(self, |_, _| { n += 1; if n > k { panic!("user predicate") } n % 3 != 0 }); }
+            3 => { let l = $T::len(self); self.extend((0..l + 40).map(|j| { if j > k { panic!("user iterator") } (It { id: (j * 7 % 60) as u16, tag: 1 }, (j % 11) as i32) })); }
+            4 => { for (_, p) in self.iter_mut() { n += 1; *p += 13 * (n as i32 % 5); if n > k { panic!("user loop body") } } }
+            _ => { let mut d = self.drain(); for _ in 0..k { d.next(); } panic!("user code while draining") }
+        }
+    }
+    fn capacity_ops(&mut self, n: usize) -> Result<(), String> {
+        let l = $T::len(self);
+        self.reserve(n); let c = self.capacity(); if c < l + n { return Err(format!("after reserve({}) capacity() = {} < len {} + {}", n, c, l, n)); }
+        self.shrink_to_fit(); if self.capacity() < l { return Err(format!("after shrink_to_fit capacity() = {} < len {}", self.capacity(), l)); }
+        if self.try_reserve(n).is_ok() && self.capacity() < l + n { return Err(format!("after try_reserve({}) = Ok capacity() = {} < len {} + {}", n, self.capacity(), l, n)); }
+        self.reserve_exact(n / 2 + 1); if self.capacity() < l + n / 2 + 1 { return Err(format!("after reserve_exact({}) capacity() = {} < len {} + {}", n / 2 + 1, self.capacity(), l, n / 2 + 1)); }
+        if self.try_reserve_exact(n).is_ok() && self.capacity() < l + n { return Err(format!("after try_reserve_exact({}) = Ok capacity() = {} < len {} + {}", n, self.capacity(), l, n)); }
+        if self.try_reserve(usize::MAX / 2).is_ok() { return Err("try_reserve(usize::MAX/2) returned Ok".into()); }
+        Ok(()) }
 } }
 
 impl Q for PriorityQueue<It, i32> {
@@ -101,6 +125,7 @@ impl Q for PriorityQueue<It, i32> {
     fn pop_hi_if(&mut self, newp: i32, accept: bool) -> Option<(It, i32)> { self.pop_if(|_, p| { *p = newp; accept }) }
     fn iter_mut_rewrite(&mut self, k: usize, d: i32, _b: bool) { for (_, p) in self.iter_mut().take(k) { *p += d; } }
     fn sorted_desc(self) -> Vec<It> { self.into_sorted_vec() }
+    fn pop_hi_if_panic(&mut self) { self.pop_if(|_, p| { *p -= 900; panic!("user predicate") }); }
     fn convert(self) -> Self { let d: DoublePriorityQueue<It, i32> = self.into(); d.into() }
 }
 impl Q for DoublePriorityQueue<It, i32> {
@@ -114,8 +139,11 @@ impl Q for DoublePriorityQueue<It, i32> {
         let mut it = self.iter_mut();
         for _ in 0..k { let x = if from_back { it.next_back() } else { it.next() }; if let Some((_, p)) = x { *p += d; } } }
     fn sorted_desc(self) -> Vec<It> { self.into_descending_sorted_vec() }
+    fn pop_hi_if_panic(&mut self) { self.pop_max_if(|_, p| { *p -= 900; panic!("user predicate") }); }
     fn convert(self) -> Self { let d: PriorityQueue<It, i32> = self.into(); d.into() }
 }
+
+static FAULTS: std::sync::atomic::AtomicBool = std::sync::atomic::AtomicBool::new(false);
 
 fn observe<T: Q>(q: &T, m: &Model) -> Result<(), Fail> {
     ck!(q.len() == m.len(), "C03,C04,C13", "len {} but model holds {}", q.len(), m.len());
@@ -140,7 +168,7 @@ fn step<T: Q>(q: &mut T, m: &mut Model, r: &mut Rng, log: &mut Vec<String>) -> R
     let id = r.below(ids) as u16;
     let p = if r.below(4) == 0 { r.below(1000) as i32 - 500 } else { r.below(7) as i32 };
     let tag = r.below(1_000_000) as u32;
-    match r.below(24) {
+    match r.below(if FAULTS.load(std::sync::atomic::Ordering::Relaxed) { 28 } else { 25 }) {
         0..=6 => { log.push(format!("push({},{})", id, p)); let old = q.push(It { id, tag }, p);
             ck!(old == m.get(&id).map(|x| x.1), "C03", "push returned {:?}, stored priority was {:?}", old, m.get(&id).map(|x| x.1));
             let t = m.get(&id).map(|x| x.0).unwrap_or(tag); m.insert(id, (t, p)); }
@@ -196,45 +224,114 @@ fn step<T: Q>(q: &mut T, m: &mut Model, r: &mut Rng, log: &mut Vec<String>) -> R
         21 => { log.push(format!("get_mut({}).tag = {}", id, tag)); if q.set_tag(id, tag) { m.get_mut(&id).unwrap().0 = tag; } else { ck!(!m.contains_key(&id), "C03", "get_mut misses a stored item"); } }
         22 => { log.push("clone / eq / sorted / serde / convert".into());
             let c = q.clone(); ck!(c.same(q), "C14", "clone is not equal to its source");
+            { // same contents in other arrangements / one pair different
+                let mut v: Vec<(It, i32)> = m.iter().map(|(k, v)| (It { id: *k, tag: v.0 }, v.1)).collect();
+                let a = T::from_vec(v.clone()); ck!(a.same(q) && q.same(&a), "C14", "a queue built from the same pairs (ascending item order) compares unequal");
+                v.reverse(); let mut b = T::new(); for (i, p) in v.iter().cloned() { b.push(i, p); }
+                ck!(b.same(q) && q.same(&b), "C14", "a queue built by pushing the same pairs in descending item order compares unequal");
+                if !v.is_empty() { let k = r.below(v.len() as u64) as usize;
+                    let mut d = b.clone(); d.change(v[k].0.id, v[k].1 + 1); ck!(!d.same(q) && !q.same(&d), "C14", "queues differing in the priority of item {} compare equal", v[k].0.id);
+                    let mut e = b.clone(); e.remove(v[k].0.id); ck!(!e.same(q) && !q.same(&e), "C14", "queues differing by one item compare equal");
+                    e.push(It { id: 9000, tag: 0 }, v[k].1); ck!(!e.same(q) && !q.same(&e), "C14", "queues of equal size differing in one item compare equal");
+                    let mut c2 = q.clone(); c2.change(v[k].0.id, v[k].1 - 3); ck!(q.get(v[k].0.id).map(|x| x.1) == Some(v[k].1), "C14", "mutating a clone changed the source"); } }
             let s = c.clone().sorted_desc(); ck!(s.len() == m.len(), "C06", "sorted vec has {} of {} elements", s.len(), m.len());
             let ps: Vec<i32> = s.iter().map(|i| m.get(&i.id).map(|x| x.1).unwrap_or(i32::MIN)).collect();
             ck!(ps.windows(2).all(|w| w[0] >= w[1]), "C06", "sorted vec is not in non-increasing order: {:?}", ps);
             match q.roundtrip() { Ok(b) => { ck!(b.same(q), "C15", "serde round trip is not equal"); observe(&b, m).map_err(|f| Fail { props: "C15", what: format!("after serde round trip: {}", f.what) })?; } Err(e) => return Err(Fail { props: "C15", what: e }) }
             let conv = c.convert(); ck!(conv.same(q), "C07", "conversion changed the contents"); *q = conv; }
-        _ => { let n = r.below(50) as usize; log.push(format!("capacity ops {}", n)); q.capacity_ops(n);
+        23 => { log.push("mem::forget(iter_mut()) without writing through it".into()); q.leak_iter_mut(0); }
+        25 => { { let w = 1 + r.below(6) as usize; log.push(format!("FAULT: mem::forget(iter_mut()) after lowering the first {} priorities", w)); q.leak_iter_mut(w); return Err(Fail { props: "FAULT", what: String::new() }); } }
+        26 | 27 => { let which = r.below(7); let k = r.below(12) as usize; log.push(format!("FAULT: operation #{} whose callback panics at call {} (caught)", which, k + 1));
+                let which2 = if T::kind() == "PriorityQueue" || which < 6 { which } else { 5 };
+                let _ = catch_unwind(AssertUnwindSafe(|| if which2 == 6 { q.pop_hi_if_panic() } else { q.faulty(which2, k, id) })); return Err(Fail { props: "FAULT", what: String::new() }); }
+        _ => { let n = r.below(50) as usize; log.push(format!("capacity ops {}", n));
+            match catch_unwind(AssertUnwindSafe(|| q.capacity_ops(n))) { Ok(Ok(())) => {}, Ok(Err(e)) => return Err(Fail { props: "C17", what: e }), Err(_) => return Err(Fail { props: "C17,C04", what: "capacity operation panicked".into() }) }
             if r.below(2) == 0 { let v: Vec<(It, i32)> = m.iter().map(|(k, v)| (It { id: *k, tag: v.0 }, v.1)).collect(); log.push("rebuild through From<Vec>/FromIterator".into());
                 *q = if r.below(2) == 0 { T::from_vec(v) } else { T::from_it(v, 0, Some(usize::MAX)) }; } }
     }
     observe(q, m)
 }
 
-fn run_seq<T: Q>(seed: u64, index: u64, len: usize, want: &str) -> Option<(String, Vec<String>)> {
+fn run_seq<T: Q>(seed: u64, index: u64, len: usize, want: &str, trace: bool) -> Option<(String, Vec<String>)> {
     let mut r = Rng(seed.wrapping_mul(0x9e3779b97f4a7c15) ^ index.wrapping_mul(0xd1b54a32d192ed03) ^ 0x5bf0_3635);
     let mut q = T::new(); let mut m = Model::new(); let mut log = vec![format!("{}::new()", T::kind())];
+    if trace { println!("  {:3}: {}", 0, log[0]); }
+    // after a caught panic in user code or a leaked iter_mut (a FAULT step) only memory safety is promised (C10):
+    // the oracle is switched off and the history continues; the only failure left is the process aborting
+    // (debug builds of std abort on the unsafe preconditions of get_unchecked & co.), which the supervisor reports
+    let mut lenient = false;
     for _ in 0..len {
+        let n0 = log.len();
         let res = catch_unwind(AssertUnwindSafe(|| step(&mut q, &mut m, &mut r, &mut log)));
+        if trace { for (k, s) in log.iter().enumerate().skip(n0) { println!("  {:3}: {}", k, s); } use std::io::Write; std::io::stdout().flush().ok(); }
         let f = match res { Ok(Ok(())) => continue, Ok(Err(f)) => f, Err(e) => Fail { props: "C04", what: format!("panic: {}", e.downcast_ref::<String>().cloned().or(e.downcast_ref::<&str>().map(|s| s.to_string())).unwrap_or_default()) } };
+        if f.props == "FAULT" { lenient = true; }
+        if lenient { continue; }
         if want == "any" || f.props.split(',').any(|p| p == want) || f.props.contains("C04") && want == "C10" { return Some((format!("[{}] {}", f.props, f.what), log)); }
         return None; // a failure of another property: this history is spoiled, try the next one
     }
     None
 }
 
+fn one(seed: u64, index: u64, l: usize, want: &str, trace: bool) -> Option<(String, Vec<String>)> {
+    if index % 2 == 0 { run_seq::<PriorityQueue<It, i32>>(seed, index, l, want, trace) } else { run_seq::<DoublePriorityQueue<It, i32>>(seed, index, l, want, trace) }
+}
+
 fn main() {
     let a: Vec<String> = std::env::args().collect();
-    std::panic::set_hook(Box::new(|_| {}));
     let (mode, want, seed) = (a[1].as_str(), a[2].as_str(), a[3].parse::<u64>().unwrap());
-    let (from, to, len) = if mode == "replay" { let i = a[4].parse::<u64>().unwrap(); (i, i + 1, a[5].parse::<usize>().unwrap()) } else { (0, a[4].parse::<u64>().unwrap(), a[5].parse::<usize>().unwrap()) };
+    FAULTS.store(want == "C10" || want == "C04", std::sync::atomic::Ordering::Relaxed);
+    let (from, to, len) = if mode == "range" { (a[6].parse::<u64>().unwrap(), a[4].parse::<u64>().unwrap(), a[5].parse::<usize>().unwrap()) } else if mode == "replay" { let i = a[4].parse::<u64>().unwrap(); (i, i + 1, a[5].parse::<usize>().unwrap()) } else { (0, a[4].parse::<u64>().unwrap(), a[5].parse::<usize>().unwrap()) };
+    let seqlen = |index: u64| if mode == "replay" { len } else { 4 + (index as usize * 7) % len };
+    if std::env::var("PQ_CEX_CHILD").is_err() {
+        // supervisor: the work is done by child processes so that an abort of the crate can be reported with its history.
+        // Only an abort raised by a violated unsafe precondition (debug std checks get_unchecked, ptr reads, ...) or a
+        // fatal signal counts; an abort caused by a second *safe* panic during unwinding is not an undefined access.
+        let exe = std::env::current_exe().unwrap();
+        let prog = std::env::temp_dir().join(format!("pq-cex-progress-{}", std::process::id()));
+        let mut start = from; let mut benign = 0u64;
+        loop {
+            let args: Vec<String> = if mode == "replay" { a[1..].to_vec() } else { vec!["range".into(), want.into(), seed.to_string(), to.to_string(), len.to_string(), start.to_string()] };
+            let st = std::process::Command::new(&exe).args(&args).env("PQ_CEX_CHILD", "1").env("PQ_CEX_PROGRESS", &prog).stderr(std::process::Stdio::null()).status().unwrap();
+            let code = st.code();
+            if code == Some(0) || code == Some(1) { std::fs::remove_file(&prog).ok();
+                if code == Some(0) && benign > 0 { println!("({} histories ended in an abort caused by a safe panic during unwinding: not counted)", benign); }
+                std::process::exit(code.unwrap()); }
+            let index: u64 = std::fs::read_to_string(&prog).ok().and_then(|s| s.trim().parse().ok()).unwrap_or(start);
+            std::fs::remove_file(&prog).ok();
+            let l = seqlen(index);
+            let out = std::process::Command::new(&exe).args(["replay", want, &seed.to_string(), &index.to_string(), &l.to_string()]).env("PQ_CEX_CHILD", "1").env("PQ_CEX_TRACE", "1").output().unwrap();
+            let err = String::from_utf8_lossy(&out.stderr); let last: Vec<&str> = err.lines().filter(|x| !x.trim().is_empty()).collect();
+            use std::os::unix::process::ExitStatusExt;
+            let sig = out.status.signal().unwrap_or(0);
+            let undefined = err.contains("unsafe precondition") || sig == 11 || sig == 7 || sig == 4;
+            if undefined {
+                println!("FAILING HISTORY (seed {} index {} length {}):", seed, index, l);
+                print!("{}", String::from_utf8_lossy(&out.stdout));
+                println!("  => [C04,C10] the process was killed during the last operation listed (signal {}): {}", sig, last.iter().rev().take(3).rev().cloned().collect::<Vec<_>>().join(" | "));
+                println!("REPLAY: pq-cex replay {} {} {} {}", want, seed, index, l);
+                std::process::exit(1);
+            }
+            benign += 1;
+            if mode == "replay" { println!("the history aborts on a safe panic during unwinding (no undefined access): {}", last.last().unwrap_or(&"")); std::process::exit(0); }
+            start = index + 1;
+            if start >= to { println!("no failing history in {} sequences (seed {}); {} ended in a safe-panic abort", to - from, seed, benign); std::process::exit(0); }
+        }
+    }
+    let trace = std::env::var("PQ_CEX_TRACE").is_ok();
+    let progress = std::env::var("PQ_CEX_PROGRESS").ok();
+    // panic messages are printed only when a single history is traced (the last one is the abort's)
+    if trace { std::panic::set_hook(Box::new(|i| { eprintln!("{}", i.to_string().replace('\n', " ")); })); } else { std::panic::set_hook(Box::new(|_| {})); }
     for index in from..to {
-        let l = if mode == "replay" { len } else { 4 + (index as usize * 7) % len };
-        let hit = if index % 2 == 0 { run_seq::<PriorityQueue<It, i32>>(seed, index, l, want) } else { run_seq::<DoublePriorityQueue<It, i32>>(seed, index, l, want) };
-        if let Some((what, log)) = hit {
-            println!("FAILING HISTORY (seed {} index {} length {}):", seed, index, l);
-            for (k, s) in log.iter().enumerate() { println!("  {:3}: {}", k, s); }
+        if let Some(p) = &progress { std::fs::write(p, index.to_string()).ok(); }
+        let l = seqlen(index);
+        if let Some((what, log)) = one(seed, index, l, want, trace) {
+            if !trace { println!("FAILING HISTORY (seed {} index {} length {}):", seed, index, l);
+                for (k, s) in log.iter().enumerate() { println!("  {:3}: {}", k, s); } }
             println!("  => {}", what);
             println!("REPLAY: pq-cex replay {} {} {} {}", want, seed, index, l);
             std::process::exit(1);
         }
     }
-    println!("no failing history in {} sequences (seed {})", to - from, seed);
+    if !trace { println!("no failing history in {} sequences (seed {})", to - from, seed); }
 }
